@@ -241,7 +241,9 @@ TetApply(s0, c) ==
 (***************************************************************************)
 (* every face three edges, every cell four faces and four distinct vertices *)
 TetFaceOK(s, f) == Len(At(s.faces, f)) = 3
-TetCellOK(s, c) == Len(At(s.cells, c)) = 4 /\ Cardinality(CellVertSet(s, c)) = 4
+TetCellOK(s, c) == LET hfs == At(s.cells, c) IN
+                   /\ Len(hfs) = 4 /\ Cardinality({Full(h) : h \in Rng(hfs)}) = 4
+                   /\ Cardinality(CellVertSet(s, c)) = 4
 TetShape(s) == /\ \A f \in LiveF(s) : TetFaceOK(s, f)
                /\ \A c \in LiveC(s) : TetCellOK(s, c)
 
